@@ -829,6 +829,11 @@ func extremeStoreCases() []string {
 			one("GETRANGE", "k", a, b)
 		}
 	}
+	// a key and a pattern on which a backtracking matcher does not come back
+	longKey := strings.Repeat("a", 64)
+	for _, pat := range []string{strings.Repeat("*a", 24) + "*b", strings.Repeat("*?", 24) + "b", strings.Repeat("a*", 24) + "c"} {
+		out = append(out, xserveLine([][][]byte{bs("SET", longKey, "v"), bs("SET", "other", "w"), bs("KEYS", pat), bs("PING"), bs("KEYS", "*")}))
+	}
 	for _, argv := range [][]string{{"SET", "", ""}, {"GET", ""}, {"APPEND", "", ""}, {"GETRANGE", "", "0", "0"}, {"RPUSH", "", ""}, {"LPOP", ""}, {"SADD", "", ""}, {"SREM", "s", ""},
 		{"HSET", "", "", ""}, {"HGET", "h", ""}, {"HDEL", "h", ""}, {"ZADD", "", "0", ""}, {"ZREM", "z", ""}, {"ZSCORE", "z", ""}, {"RENAME", "k", ""}, {"DEL", ""}, {"MSET", "", ""}, {"MGET", "", ""},
 		{"ZRANGEBYSCORE", "z", "+inf", "-inf"}, {"ZRANGEBYSCORE", "z", "(2", "(2"}, {"ZREVRANGEBYSCORE", "z", "-inf", "+inf"}, {"LRANGE", "l", "2", "0"}, {"ZRANGE", "z", "3", "1"}, {"ZREVRANGE", "z", "-1", "-3"},
